@@ -262,9 +262,13 @@ pub fn interp_enum(d: &Decl, ei: usize, name: &str, tokens: &[String]) -> Expect
         }
     }
     if let Some(mut e) = sub_err {
-        // the child's error competes with a parent's missing argument: either may be "first"
+        // an offending *item* inside the sub-command's part of the line comes before any missing argument (those are
+        // only known once the line has been read to its end); between a child's and a parent's missing argument
+        // either may be "first"
         if let Some(m) = first_missing {
-            e.push(m);
+            if e.iter().all(|x| matches!(x, PErr::Missing(_))) {
+                e.push(m);
+            }
         }
         return Expect::Err(e);
     }
